@@ -112,3 +112,16 @@ PROPS["C14"] = dict(
     assumptions=["metamorphic: Exec copies text pieces verbatim, so pad tokens travel from source to expected output",
                  "pads stand in the middle of a text piece, never next to a delimiter"],
 )
+
+PROPS["C04"] = dict(
+    level="model_checking",
+    stages=[dict(name="enum", module="MC_C04", cfg={"quick": "MC_C04_quick.cfg", "thorough": "MC_C04_thorough.cfg"},
+                 timeout={"quick": 300, "thorough": 1500})],
+    nontrivial=lambda r: True,
+    rule="every admissible literal (17 byte classes incl. NUL, invalid UTF-8, lone braces, %, #, -, backslash, quotes) of up "
+         "to Side bytes before and after each of 8 tag kinds; every literal alone up to Alone bytes; every comment / verbatim "
+         "body up to BodyLen bytes plus bodies holding tag syntax and spies; two tags with a literal between",
+    assumptions=["Admissible excludes only text that would itself be a delimiter ({{ {% {# inside, a trailing { before a tag)",
+                 "verbatim bodies that contain tag syntax are checked for what the property states (not evaluated: same output "
+                 "under three contexts, no context data, no spy invoked), not for byte-exact reproduction of the inner tags"],
+)
